@@ -1,0 +1,11 @@
+//go:build !verif
+
+package gossip
+
+import "github.com/hashicorp/memberlist"
+
+// verif hook H3 (off): in the default build the simulation seams are inert.
+
+func simSend(a *Agent, dst *memberlist.Node, wire []byte) bool { return false }
+
+func simShuffle(l *PeerList) bool { return false }
